@@ -37,8 +37,7 @@ func recCount(r *vlib.Rand, cheap bool) int {
 func genRecords(g *genCtx, typ string, n *Node) {
 	r := g.r
 	ts := man.T(typ)
-	iRec, fRec := ts.field("Records")
-	iCnt, _ := ts.field("RecordCount")
+	_, fRec := ts.field("Records")
 	if r.Intn(5) == 0 {
 		return // an arbitrary blob with an arbitrary count: carried all the same
 	}
@@ -58,79 +57,158 @@ func genRecords(g *genCtx, typ string, n *Node) {
 		pool[i] = genStruct(g, recType)
 	}
 	recs := make([]*Node, cnt)
-	objs := make([]interface{}, cnt)
 	for i := range recs {
 		recs[i] = pool[i%distinct]
-		objs[i] = buildObj(recs[i])
+	}
+	deriveRecords(typ, n, &Node{K: kBytes, Recs: recs, RecMode: drawRecMode(r, typ), RecVer: ver})
+}
+
+// drawRecMode picks one of the setters the record-list pack offers.
+func drawRecMode(r *vlib.Rand, typ string) string {
+	switch typ {
+	case "StatSqlPack", "StatHttpcPack", "StatTransactionPack", "StatTransactionPack1":
+		if r.Bool() {
+			return "SetRecordsList"
+		}
+	case "StatErrorPack":
+		if r.Intn(3) == 0 {
+			return "SetRecordsArray"
+		}
+	}
+	return "SetRecords"
+}
+
+// applyRecords fills the record blob of the pack p from the records of rb through the pack's
+// own setter, the way a sender does. It touches only what the setter touches (for ZipPack the
+// gzip step of the zip sender is applied to the blob; the status flag stays a plain field).
+func applyRecords(p interface{}, typ string, rb *Node) {
+	cnt := len(rb.Recs)
+	objs := make([]interface{}, cnt)
+	for i, rec := range rb.Recs {
+		objs[i] = buildObj(rec)
+	}
+	mode := rb.RecMode
+	switch p := p.(type) {
+	case *pack.StatServicePack:
+		p.SetRecords(cnt, &sliceEnum{items: objs})
+	case *pack.StatSqlPack:
+		if mode == "SetRecordsList" {
+			p.SetRecordsList(toList(objs))
+		} else {
+			p.SetRecords(cnt, &sliceEnum{items: objs})
+		}
+	case *pack.StatHttpcPack:
+		if mode == "SetRecordsList" {
+			p.SetRecordsList(toList(objs))
+		} else {
+			p.SetRecords(cnt, &sliceEnum{items: objs})
+		}
+	case *pack.StatErrorPack:
+		if mode == "SetRecordsArray" {
+			a := make([]*pack.ErrorRec, cnt)
+			for i, o := range objs {
+				a[i] = o.(*pack.ErrorRec)
+			}
+			p.SetRecordsArray(a)
+		} else {
+			p.SetRecords(cnt, &sliceEnum{items: objs})
+		}
+	case *pack.StatTransactionPack:
+		// the record layout the setter writes is chosen by Version at that moment
+		saved := p.Version
+		p.Version = rb.RecVer
+		defer func() { p.Version = saved }()
+		if mode == "SetRecordsList" {
+			p.SetRecordsList(toList(objs))
+		} else {
+			p.SetRecords(cnt, &sliceEnum{items: objs})
+		}
+	case *pack.StatTransactionPack1:
+		saved := p.Version
+		p.Version = rb.RecVer
+		defer func() { p.Version = saved }()
+		if mode == "SetRecordsList" {
+			p.SetRecordsList(toList(objs))
+		} else {
+			p.SetRecords(cnt, &sliceEnum{items: objs})
+		}
+	case *pack.SMDownCheckPack:
+		a := make([]*pack.DownCheckRec, cnt)
+		for i, o := range objs {
+			a[i] = o.(*pack.DownCheckRec)
+		}
+		p.SetRecords(a)
+	case *pack.ZipPack:
+		items := make([]pack.Pack, cnt)
+		for i, o := range objs {
+			items[i] = o.(pack.Pack)
+		}
+		p.SetRecords(items)
+		if mode == "gzip" {
+			// what logsink/zip's sender does before sending: gzip (+ status flag, a plain field)
+			z, err := compressutil.DoZip(p.Records)
+			if err != nil {
+				panic(err)
+			}
+			p.Records = z
+		}
+	case *pack.LogSinkZipPack:
+		o := gio.NewDataOutputX()
+		for _, it := range objs {
+			pack.WritePack(o, it.(pack.Pack))
+		}
+		p.SetRecords(o.ToByteArray(), rb.RecMin)
+	default:
+		panic("applyRecords: no setter for " + typ)
+	}
+}
+
+// setterComputed names the manifest fields the record setter of the type fills in itself.
+func setterComputed(typ string) []string {
+	switch typ {
+	case "LogSinkZipPack":
+		return []string{"Records", "Status"} // the count is the caller's
+	}
+	return []string{"Records", "RecordCount"}
+}
+
+// deriveRecords fills the record fields of the model n (blob, count, status) by applying the
+// records of rb to a FRESH pack through the pack's own setter.
+func deriveRecords(typ string, n *Node, rb *Node) {
+	ts := man.T(typ)
+	iRec, _ := ts.field("Records")
+	iCnt, _ := ts.field("RecordCount")
+	iSt, _ := ts.field("Status")
+	if typ == "ZipPack" && len(rb.Recs) == 0 {
+		rb.RecMode = "plain" // the sender's gzip step refuses an empty blob
 	}
 	tmp := newObj(typ)
-	mode := "SetRecords"
-	perr := vlib.Catch(func() {
-		switch p := tmp.(type) {
-		case *pack.StatServicePack:
-			p.SetRecords(cnt, &sliceEnum{items: objs})
-		case *pack.StatSqlPack:
-			if r.Bool() {
-				mode = "SetRecordsList"
-				p.SetRecordsList(toList(objs))
-			} else {
-				p.SetRecords(cnt, &sliceEnum{items: objs})
-			}
-		case *pack.StatHttpcPack:
-			if r.Bool() {
-				mode = "SetRecordsList"
-				p.SetRecordsList(toList(objs))
-			} else {
-				p.SetRecords(cnt, &sliceEnum{items: objs})
-			}
-		case *pack.StatErrorPack:
-			if r.Intn(3) == 0 {
-				mode = "SetRecordsArray"
-				a := make([]*pack.ErrorRec, cnt)
-				for i, o := range objs {
-					a[i] = o.(*pack.ErrorRec)
-				}
-				p.SetRecordsArray(a)
-			} else {
-				p.SetRecords(cnt, &sliceEnum{items: objs})
-			}
-		case *pack.StatTransactionPack:
-			p.Version = ver
-			if r.Bool() {
-				mode = "SetRecordsList"
-				p.SetRecordsList(toList(objs))
-			} else {
-				p.SetRecords(cnt, &sliceEnum{items: objs})
-			}
-		case *pack.StatTransactionPack1:
-			p.Version = ver
-			if r.Bool() {
-				mode = "SetRecordsList"
-				p.SetRecordsList(toList(objs))
-			} else {
-				p.SetRecords(cnt, &sliceEnum{items: objs})
-			}
-		case *pack.SMDownCheckPack:
-			a := make([]*pack.DownCheckRec, cnt)
-			for i, o := range objs {
-				a[i] = o.(*pack.DownCheckRec)
-			}
-			p.SetRecords(a)
-		default:
-			panic("genRecords: no setter for " + typ)
-		}
-	})
+	perr := vlib.Catch(func() { applyRecords(tmp, typ, rb) })
 	x := extractObj(typ, tmp)
-	rb := x.L[iRec]
-	rb.Recs, rb.RecMode = recs, mode
-	if perr != nil {
-		rb.RecMode = fmt.Sprintf("%s panicked: %v", mode, perr)
+	out := x.L[iRec]
+	out.Recs, out.RecMode, out.RecVer, out.RecMin = rb.Recs, rb.RecMode, rb.RecVer, rb.RecMin
+	if out.Recs == nil {
+		out.Recs = []*Node{}
 	}
-	if rb.Recs == nil {
-		rb.Recs = []*Node{}
-	}
-	n.L[iRec] = rb
+	n.L[iRec] = out
 	n.L[iCnt] = x.L[iCnt]
+	switch typ {
+	case "ZipPack":
+		n.L[iSt] = nInt(0)
+		if rb.RecMode == "gzip" {
+			n.L[iSt] = nInt(pack.ZIPPED)
+		}
+	case "LogSinkZipPack":
+		n.L[iCnt] = nInt(int64(len(rb.Recs)))
+		n.L[iSt] = x.L[iSt]
+		out.RecMode = "plain"
+		if x.L[iSt].I == pack.ZIPPED {
+			out.RecMode = "gzip"
+		}
+	}
+	if perr != nil {
+		out.RecMode = fmt.Sprintf("%s panicked: %v", rb.RecMode, perr)
+	}
 }
 
 // genZipRecords fills a zip container from inner packs the way the senders do.
@@ -139,7 +217,6 @@ func genZipRecords(g *genCtx, typ string, n *Node) {
 	ts := man.T(typ)
 	iRec, _ := ts.field("Records")
 	iCnt, _ := ts.field("RecordCount")
-	iSt, _ := ts.field("Status")
 	if r.Intn(6) == 0 || g.depth >= 2 {
 		if g.depth >= 2 {
 			n.L[iRec] = &Node{K: kBytes, Nil: true}
@@ -152,47 +229,29 @@ func genZipRecords(g *genCtx, typ string, n *Node) {
 		cnt = 60
 	}
 	recs := make([]*Node, cnt)
-	objs := make([]pack.Pack, cnt)
 	g.depth++
 	for i := range recs {
-		if typ == "LogSinkZipPack" {
-			recs[i] = genStruct(g, "LogSinkPack")
-		} else {
-			recs[i] = genStruct(g, nestedTypes[r.Intn(len(nestedTypes))])
-		}
-		objs[i] = buildObj(recs[i]).(pack.Pack)
+		recs[i] = genInner(g, typ)
 	}
 	g.depth--
-	mode := "plain"
-	var blobBytes []byte
-	status := int64(0)
+	rb := &Node{K: kBytes, Recs: recs, RecMode: "plain"}
 	switch typ {
 	case "ZipPack":
-		p := pack.NewZipPack().SetRecords(objs)
-		blobBytes = p.Records
 		if r.Bool() {
-			// what logsink/zip's sender does before sending: gzip + status flag
-			z, err := compressutil.DoZip(p.Records)
-			if err == nil {
-				blobBytes, status, mode = z, pack.ZIPPED, "gzip"
-			}
+			rb.RecMode = "gzip"
 		}
 	case "LogSinkZipPack":
-		o := gio.NewDataOutputX()
-		for _, it := range objs {
-			pack.WritePack(o, it)
-		}
-		p := pack.NewLogSinkZipPack()
-		min := []int{0, 100, 1 << 30}[r.Intn(3)]
-		p.SetRecords(o.ToByteArray(), min)
-		blobBytes, status = p.Records, int64(p.Status)
-		if p.Status == pack.ZIPPED {
-			mode = "gzip"
-		}
+		rb.RecMin = []int{0, 100, 1 << 30}[r.Intn(3)]
 	}
-	n.L[iRec] = &Node{K: kBytes, B: blobBytes, Nil: blobBytes == nil, Recs: recs, RecMode: mode}
-	n.L[iCnt] = nInt(int64(cnt))
-	n.L[iSt] = nInt(status)
+	deriveRecords(typ, n, rb)
+}
+
+// genInner draws one inner pack for a zip container.
+func genInner(g *genCtx, typ string) *Node {
+	if typ == "LogSinkZipPack" {
+		return genStruct(g, "LogSinkPack")
+	}
+	return genStruct(g, nestedTypes[g.r.Intn(len(nestedTypes))])
 }
 
 // getRecords asks the decoded pack for its records.
